@@ -85,24 +85,36 @@ package verifspec
 //@   param pc
 //@   assigns nothing
 //@   ensures result == isMainPkg(ref(pc))
-//@ extern compiler.funcContext.newFuncDecl
-//@   param fc fun inst
-//@   ensures result != nil && newobj(result) && len(result.FullName) > 0 && result.FullName[0] == 102
+// (newFuncDecl is under contract in dce.go: a fresh declaration whose name starts with 'f')
+// (assumed: the instances the collector recorded for an object are instances of that object)
 //@ extern compiler.funcContext.knownInstances
 //@   param fc o
+//@   assigns nothing
+//@   ensures forall(k, 0, len(result), key(result[k].Object) == key(o))
 //@ extern compiler.funcContext.CatchOutput
 //@   param fc indent f
+// (Decl.Dce returns the address of the declaration's embedded dce.Info: one Info per declaration, dceOf as in dce.go;
+// SetName sets the two filters and leaves the alive mark alone)
 //@ extern compiler.Decl.Dce
 //@   param d
-//@   ensures result != nil
+//@   assigns nothing
+//@   ensures result != nil && ref(result) == dceOf(key(d))
 //@ extern compiler/internal/dce.Info.SetName
-//@   param id o tNest tArgs
+//@   param d o tNest tArgs
+//@   assigns d.objectFilter, d.methodFilter
+//@   ensures d.alive == old(d.alive)
 //@ extern compiler/internal/typeparams.Instance.IsTrivial
 //@   param i
 //@   assigns nothing
 //@   ensures result == (len(i.TArgs) == 0 && len(i.TNest) == 0)
+//@ pure objName(o int) int
+//@ pure nameIsMain(o int) bool
+//@ pure nameIsInit(o int) bool
 //@ extern go/types.object.Name
 //@   param o
+//@   assigns nothing
+//@   ensures key(result) == objName(key(o))
+//@   ensures (result == "main") == nameIsMain(key(o)) && (result == "init") == nameIsInit(key(o))
 //@ extern go/types.object.Exported
 //@   param o
 //@ extern compiler/internal/typeparams.Instance.String
@@ -122,7 +134,8 @@ package verifspec
 //@   results decls err
 // (the type assertion on the type checker's Defs entry is outside this contract: a panic there aborts the build)
 //@   panics_only_if true
-//@   requires fc != nil && fc.pkgCtx != nil && forall(k, 0, len(functions), functions[k] != nil)
+//@   requires fc != nil && fc.pkgCtx != nil && forall(k, 0, len(functions), functions[k] != nil && functions[k].Name != nil)
+//@   requires fc.pkgCtx.Info != nil && fc.pkgCtx.Info.Info != nil
 //@   loop 1 assigns heap(pkgContext.pkgVars), heap(funcContext.allVars), heap(funcContext.localVars), heap(funcContext.objectNames)
 //@   loop 1 invariant forall(k, 0, len(funcDecls), funcDecls[k] != nil && len(funcDecls[k].FullName) > 0 && funcDecls[k].FullName[0] == 102)
 //@   loop 2 assigns heap(pkgContext.pkgVars), heap(funcContext.allVars), heap(funcContext.localVars), heap(funcContext.objectNames)
